@@ -140,6 +140,13 @@ fn transactions_for_pool(transactions: &[Transaction], pool_key: &PoolKey) -> Ve
         .collect()
 }
 
+/// The pools that `create_builtins` sets up and that pegging and the block subsidy read.
+fn is_builtin_pool(pool: &PoolKey) -> bool {
+    *pool == PoolKey::new(Denom::Mel, Denom::Sym)
+        || *pool == PoolKey::new(Denom::Mel, Denom::Erg)
+        || *pool == PoolKey::new(Denom::Erg, Denom::Sym)
+}
+
 /// Creates the built-in pools if they don't exist. The built-in pools start out with nonzero liq, so that they can never be completely depleted. This ensures that built-in pools will always exist in the state.
 fn create_builtins<C: ContentAddrStore>(mut state: UnsealedState<C>) -> UnsealedState<C> {
     let mut def = PoolState::new_empty();
@@ -417,6 +424,12 @@ fn process_withdrawals_for_single_pool<C: ContentAddrStore>(
     let mut pool_state = state.pools.get(pool).unwrap();
     // nothing to redeem, or more than the pool has ever issued: leave the requests unsettled
     if total_liqs == 0 || total_liqs > pool_state.liqs {
+        return;
+    }
+    // the built-in pools price the peg and the block subsidy at every sealing and must keep their reserves: redeeming
+    // all of their liquidity (only possible with liquidity tokens that no deposit paid for, e.g. out of a faucet or
+    // the genesis block) is left unsettled as well
+    if total_liqs == pool_state.liqs && is_builtin_pool(pool) {
         return;
     }
     let (total_left, total_write) = pool_state.withdraw(total_liqs);
